@@ -145,8 +145,9 @@ contract("abs:ScenarioOutlineBuilder.build_scenarios", trusted=True, params={"se
                   "modified-flags-cleared":
                   "forall(lambda k: implies(0 <= k < len(scenario_outline.examples) and not is_none(scenario_outline.examples[k].table), "
                   "as_ref(scenario_outline.examples[k].table, 'Table').modified == False))"},
-         doc="build_scenarios: one scenario per examples row (make_scenario_for is proved; the double loop with ids is bounded); "
-             "clears the modified flag of every examples table")
+         doc="call-site view of build_scenarios inside ScenarioOutline.scenarios: a new list per build and no table left marked "
+             "modified (the real ScenarioOutlineBuilder.build_scenarios is proved below: one scenario per examples row in block "
+             "then row order, every table unmarked)")
 contract(M + "ScenarioOutline.scenarios", props=["C06"], params={"self": "ref:ScenarioOutline"},
          self_classes=["ScenarioOutline"], result="seq:ref:Scenario",
          callsites={"ScenarioOutlineBuilder": "new:ScenarioOutlineBuilder",
@@ -171,7 +172,9 @@ prop("C06", level="other", bounded=[],
                  "left marked; render_template returns text without a '<'..'>' pair unchanged and otherwise applies one "
                  "replacement per (name, value) pair of the row and then of the extra parameters, in order, none skipped "
                  "(str.replace itself uninterpreted). Bounded: what the replacements do to the characters (step tables, names, "
-                 "KF-C06-1), build_scenarios' double loop, row ids, Table API histories",
+                 "KF-C06-1), row ids and generated names, Table API histories; build_scenarios yields exactly one new scenario per "
+                 "examples row, in examples-block then row order (blocks without a table contribute none), and leaves no table "
+                 "marked modified; Parser._build_examples gives each Examples block its own tag list",
      technique="contract-based deductive verification (own VC generator over the real ASTs, z3/cvc5) of the expansion structure; "
                "bounded run-time contract stand-in for the string substitution",
      notes=["callers see render_template / Tag.make_name / make_scenario_name as functions of their arguments (call-site views); "
